@@ -470,6 +470,12 @@ func readStreamingPacket(conn net.Conn, buf []byte) (int, error) {
 }
 
 func writeStreamingPacket(conn net.Conn, buf []byte) (int, error) {
+	// The RFC 4571 length header is 16 bits wide: refuse what it cannot
+	// describe instead of emitting a truncated length.
+	if len(buf) > 0xFFFF {
+		return 0, errStreamingPacketTooLarge
+	}
+
 	bufCopy := make([]byte, streamingPacketHeaderLen+len(buf))
 	binary.BigEndian.PutUint16(bufCopy, uint16(len(buf))) //nolint:gosec // G115
 	copy(bufCopy[2:], buf)
